@@ -144,6 +144,8 @@ pub struct RefChain {
     pub seen: Vec<Option<Board>>,
     pub keys: Vec<PosKey>,
     pub outcome: Option<Outcome>,
+    /// harness-written notation of move `i` (San, SanUtf8), filled on demand
+    pub san: Vec<Option<[String; 2]>>,
 }
 
 impl RefChain {
@@ -167,6 +169,7 @@ impl RefChain {
         self.replayed.truncate(len + 1);
         self.seen.truncate(len + 1);
         self.keys.truncate(len + 1);
+        self.san.truncate(len);
     }
 }
 
@@ -361,6 +364,7 @@ impl World {
             seen: vec![Some(chain.last().clone())],
             keys: vec![key_of(chain.last())],
             outcome: None,
+            san: vec![],
         };
         World {
             props,
@@ -958,6 +962,7 @@ impl World {
             }
         };
         self.rc.moves.push(applied);
+        self.rc.san.push(None);
         if observed {
             let b = self.chain.last().clone();
             self.rc.keys.push(key_of(&b));
